@@ -759,6 +759,9 @@ func (e *Exec) slice(fr *frame, instr *ssa.Slice, x, lo, hi, max Value) Value {
 // indexConcrete bounds-checks idx against n and returns a concrete index
 // (forking over feasible values when symbolic).
 func (e *Exec) indexConcrete(fr *frame, idx Value, n int, signed bool) int {
+	if o, ok := idx.(Opaque); ok {
+		e.unsupported(fr, "index is the result of an unsupported operation: %s", o.why)
+	}
 	t := idx.(*Term)
 	if t.IsConst() {
 		i := int64(t.val)
